@@ -2,7 +2,7 @@
     Property theorems only, about the per-window methods REGENERATED from the source (Gen/GenScalars.v;
     translation validated by correspondence K5).  [eql] = elementwise equality of rationals. *)
 From Coq Require Import QArith Qabs List Bool String.
-From IV Require Import QL Dist Ecdf QListFacts GenUtils GenScalars RatLS C16_compose C03_proofs C02_proofs C04_proofs C01_proofs C09_proofs RatLS_proofs Affine Affine_debiasers Driver Driver_rel ApplyLocation_units ApplyLocation_param SDM SDM_proofs IsimipStep5 IsimipStep5_proofs.
+From IV Require Import QL Dist Ecdf QListFacts GenUtils GenScalars RatLS C16_compose C03_proofs C02_proofs C04_proofs C01_proofs C09_proofs RatLS_proofs Affine Affine_debiasers Driver Driver_rel ApplyLocation_units ApplyLocation_param SDM SDM_proofs IsimipStep5 IsimipStep5_proofs NP IsimipStep3 IsimipStep3_proofs.
 Import ListNotations.
 Open Scope Q_scope.
 
@@ -165,3 +165,22 @@ Theorem C02_isimip_step5_additive : forall em im a b c oh ch cf, em = step_funct
   Affine.ARL 1 c (step5 TAdditive em im a b oh ch cf) (step5 TAdditive em im a b oh ch (map (fun x => x + c) cf)).
 Proof. exact step5_additive_trend. Qed.
 Print Assumptions C02_isimip_step5_additive.
+
+(** ISIMIP steps 3 and 7 (hand model Model/IsimipStep3.v, correspondence K21; scipy's significance decision is an
+    input of the model): a uniform shift of the series leaves the removed trend unchanged and shifts the detrended
+    series by the same constant, and step 7 adds back exactly what step 3 removed — for every set of years (gaps,
+    unequal numbers of values, any storage order) *)
+Theorem C02_isimip_step3_trend_shift_invariant : forall sig c years x, years <> [] -> List.length x = List.length years ->
+  eql (step3_trend sig years (map (fun v => v + c) x)) (step3_trend sig years x).
+Proof. exact step3_trend_shift. Qed.
+Print Assumptions C02_isimip_step3_trend_shift_invariant.
+
+Theorem C02_isimip_step3_commutes_with_shift : forall sig c years x, years <> [] -> List.length x = List.length years ->
+  eql (step3_remove sig years (map (fun v => v + c) x)) (map (fun v => v + c) (step3_remove sig years x)).
+Proof. exact step3_remove_shift. Qed.
+Print Assumptions C02_isimip_step3_commutes_with_shift.
+
+Theorem C02_isimip_step7_restores_step3 : forall sig years x, List.length x = List.length years ->
+  eql (step7_restore (step3_remove sig years x) (step3_trend sig years x)) x.
+Proof. exact step7_restores. Qed.
+Print Assumptions C02_isimip_step7_restores_step3.
